@@ -4,12 +4,12 @@ from harness import common, gens, codecio
 from harness.common import Stream, hexb
 
 PID = "C09"
-LEAN_MODULES = ["Astm.Proofs.C09", "Astm.State.C09"]
+LEAN_MODULES = ["Astm.Proofs.C09", "Astm.State.C09", "Astm.Surface.C09"]
 THEOREMS = [
     "Astm.C09.ok_only_if_wellformed", "Astm.C09.wellformed_decodes_latin1", "Astm.C09.content_substitution_detected",
     "Astm.C09.checksum_char_substitution_detected", "Astm.C09.checksum_case_insensitive",
     "Astm.C09.trailing_crlf_optional", "Astm.C09.truncation_detected", "Astm.C09.example_message",
-    "Astm.C09.anchored_code_keeps_no_other_state",
+    "Astm.C09.anchored_code_keeps_no_other_state", "Astm.C09.anchored_code_keeps_its_signatures",
 ]
 RULE = ("valid messages (1-3 records, text without framing controls, final ETX or intermediate ETB frames) and for each: "
         "every single-byte substitution at every content and checksum position x 255 values, every truncation, removal "
